@@ -1,5 +1,6 @@
 """C13 — streaming inflate protocol (decision tables of inflate() and one iteration of inflate_loop())."""
 import paths
+import slices
 from terms import ISet, tstr, pstr, is_const, const_val
 from rules.util import *
 
@@ -20,6 +21,15 @@ def run(ctx):
         run_cfg(ctx, cfg)
 
 
+def latest_loads(row, field):
+    """loads of `field` known to the row that carry its most recent epoch (the value in force at the end of the path)"""
+    ls = [t for t in row.facts.c if t[0] == "load" and t[1][0] == "fld" and t[1][2] == field]
+    if not ls:
+        return []
+    m = max(t[2] for t in ls)
+    return [t for t in ls if t[2] == m]
+
+
 def run_cfg(ctx, cfg, only=None, prefix=""):
     """`only` / `prefix`: another property (C05: failed streams stay failed) reuses a subset of these rules under its own rule ids"""
     import core as _core
@@ -36,7 +46,7 @@ def run_cfg(ctx, cfg, only=None, prefix=""):
     FCMP, DONE, NMI = ST["FailedCannotMakeProgress"], ST["Done"], ST["NeedsMoreInput"]
     f = c.fn("inflate::stream::inflate")
     ctx.touched(f)
-    ev = paths.Evaluator(c, inline=["StreamResult::error"])
+    ev = paths.Evaluator(c, inline=["StreamResult::error"], effects=ctx.effects(cfg))
     rows = ev.run(f)
     flush = P(4)
     state = P(1)
@@ -216,8 +226,9 @@ def run_cfg(ctx, cfg, only=None, prefix=""):
                 continue
             # StreamEnd iff last_status(after)==Done && dict_avail(after)==0
             ep = [t for t, s in row.atoms]
-            ls_after = [t for t in row.facts.c if t[0] == "load" and t[1][0] == "fld" and t[1][2] == "last_status" and t[2] != 0]
-            da_after = [t for t in row.facts.c if t[0] == "load" and t[1][0] == "fld" and t[1][2] == "dict_avail" and t[2] != 0]
+            # the values in force when the status is chosen: the most recent loads (push_dict_out changes dict_avail, not last_status)
+            ls_after = latest_loads(row, "last_status")
+            da_after = [t for t in latest_loads(row, "dict_avail") if t[2] != 0]
             done = any(vs(row, t).single() == DONE for t in ls_after)
             empty = any(vs(row, t).single() == 0 for t in da_after)
             if is_enum(p, "StreamEnd"):
@@ -262,7 +273,7 @@ def run_cfg(ctx, cfg, only=None, prefix=""):
     g = c.fn("inflate::stream::inflate_loop")
     ctx.touched(g)
     gn = g.name
-    ev = paths.Evaluator(c)
+    ev = paths.Evaluator(c, effects=ctx.effects(cfg))
     rows = ev.run(g)
     flush = P(7)
     for row in rows:
@@ -300,9 +311,11 @@ def run_cfg(ctx, cfg, only=None, prefix=""):
         adv = False
         if len(sni) == 1:
             v = sni[0][2]
-            # &(*index(&**next_in, RangeFrom{in_bytes}))
-            adv = paths.term_contains(v, lambda t: t[0] == "agg" and t[1].endswith("RangeFrom") and t[4] == (inb,)) and \
-                paths.term_contains(v, lambda t: t[0] == "call" and "Index" in t[1])
+            # the new *next_in is the old one from offset in_bytes to its end, however the slicing is spelled
+            reg = slices.region(v, store=row.store)
+            old_in = ("load", ("deref", P(2)), 0)
+            adv = reg is not None and slices.strip(reg.root) in (old_in, ("deref", P(2))) and reg.off == slices.lin(inb) and \
+                slices.ladd(reg.off, reg.length) == (0, {("len", reg.root): 1})
         if okc and adv:
             r7.ok(gn, "loop-accounting", "total_in += in_bytes; next_in = &next_in[in_bytes..]; dict_avail = out_bytes; total_out += pushed")
         else:
@@ -312,7 +325,7 @@ def run_cfg(ctx, cfg, only=None, prefix=""):
         out = row.outcome[0]
         ret = row.ret
         fs = vs(row, flush)
-        da_after = [t for t in row.facts.c if t[0] == "load" and t[1][0] == "fld" and t[1][2] == "dict_avail" and t[2] != 0]
+        da_after = [t for t in latest_loads(row, "dict_avail") if t[2] != 0]
         empty = any(vs(row, t).single() == 0 for t in da_after)
         nonempty = any(not vs(row, t).contains(0) for t in da_after)
         if sv.single() == FCMP:
@@ -364,7 +377,7 @@ def run_cfg(ctx, cfg, only=None, prefix=""):
     # push_dict_out: n = min(dict_avail, next_out.len()) bounds everything
     h = c.fn("inflate::stream::push_dict_out")
     ctx.touched(h)
-    ev = paths.Evaluator(c)
+    ev = paths.Evaluator(c, effects=ctx.effects(cfg))
     hrows = [r for r in ev.run(h) if r.outcome[0] == "return"]
     for row in hrows:
         n = row.ret
